@@ -672,6 +672,9 @@ func (f *frame) doUnOp(i *ssa.UnOp, st *State, pc string) {
 		x := f.val(i.X)
 		if x.So == "F64" {
 			f.vals[i] = T{"(fneg " + x.S + ")", "F64"}
+		} else if b, ok := i.X.Type().Underlying().(*types.Basic); ok && (b.Kind() == types.Int64 || b.Kind() == types.Int) {
+			// two's-complement negation is exact except at the minimum, which it maps to itself
+			f.vals[i] = g.s.def(i.Name(), T{ite("(= "+x.S+" (- 9223372036854775808))", x.S, "(- "+x.S+")"), "Int"})
 		} else {
 			f.vals[i] = T{"(- " + x.S + ")", "Int"}
 		}
